@@ -45,7 +45,10 @@ def write_forms(t):
         # the constant in every position of a multi-name unpack, next to names that are new and names that already exist
         out += [("unpack-second-after-new", "[unq, C] = [7, 8]", False), ("unpack-second-after-existing", "ev = 0\n[ev, C] = [7, 8]", False),
                 ("unpack-middle-after-existing", "ev = 0\n[ev, C, unz] = [7, 8, 9]", False), ("unpack-last-of-three", "ev = 0\new = 0\n[ev, ew, C] = [7, 8, 9]", False),
-                ("unpack-first-before-existing", "ev = 0\n[C, ev] = [7, 8]", False), ("unpack-twice", "ev = 0\n[ev, C] = [7, 8]\n[ev, C] = [9, 10]", False)]
+                ("unpack-first-before-existing", "ev = 0\n[C, ev] = [7, 8]", False), ("unpack-twice", "ev = 0\n[ev, C] = [7, 8]\n[ev, C] = [9, 10]", False),
+                # ONE name: with the trailing comma the grammar asks for, from a list of one and of two elements, from a variable
+                ("unpack-single-name", "[C,] = [7]", False), ("unpack-single-name-of-two", "[C,] = [7, 8]", False), ("unpack-single-name-from-variable", "upv = [7, 8]\n[C,] = upv", False),
+                ("unpack-single-name-then-assign", "[C,] = [7]\nC = 9", False)]
     if t == "str":
         out.append(("op+=", "C += \"x\"", False))
         out += [("unpack-second-after-existing", "ev = \"e\"\n[ev, C] = [\"p\", \"q\"]", False), ("unpack-second-after-new", "[unq, C] = [\"p\", \"q\"]", False)]
